@@ -1,6 +1,7 @@
 """the one-slip repairs of the round-4 seeds: seed id -> [(file, text with the slip, corrected text)] (each text occurs once).
 Built into behaviour-preserving refactorings by selftest/mktwin.py (stored under seeded/neutral3/)."""
 T, L, S, D, Y, G, A = "xfab/tools.py", "xfab/laue.py", "xfab/structure.py", "xfab/detector.py", "xfab/symmetry.py", "xfab/sglib.py", "xfab/atomlib.py"
+SG = "xfab/sg.py"
 
 TWINS = {
     "C01c": [(T, "astar*calpstar],\n                    [0,    1/(b*sgam),     bstar*cbetstar],", "astar*cbetstar],\n                    [0,    1/(b*sgam),     bstar*calpstar],"),
@@ -41,4 +42,38 @@ TWINS = {
              (L, "    res = np.array([[i, j, k, 0] for i in idx for j in idx for k in idx])", "    res = np.array([[i, j, k, 0.0] for i in idx for j in idx for k in idx])")],
     "C20c": [(T, "    if CHECKS.activated: checks._check_rotation_matrix(Q)", "    if CHECKS.activated: checks._check_rotation_matrix(U)"),
              (L, "    if CHECKS.activated: checks._check_rotation_matrix(Q)", "    if CHECKS.activated: checks._check_rotation_matrix(U)")],
+    # ---- round 7 (input-class-specific defects): the same edit done right
+    "C01s": [(T, "    cell = n.array(unit_cell)\n", "    cell = n.array(unit_cell, dtype=float)\n")],
+    "C03s": [(T, "    q = [n.sqrt(max(0., 1. - n.dot(qua, qua))), qua[0], qua[1], qua[2]]",
+              "    q = [n.copysign(n.sqrt(max(0., 1. - n.dot(qua, qua))), n.cos(whalf)), qua[0], qua[1], qua[2]]"),
+             (L, "    q = [np.sqrt(max(0., 1. - np.dot(qua, qua))), qua[0], qua[1], qua[2]]",
+              "    q = [np.copysign(np.sqrt(max(0., 1. - np.dot(qua, qua))), np.cos(whalf)), qua[0], qua[1], qua[2]]")],
+    "C04s": [(SG, "            if sgname[0] in \"Rr\" and sgname[-1]==\"r\":", "            if sgname[0] in \"Rr\" and sgname[-1] in \"Rr\":")],
+    "C05s": [(T, "    if crystal_system == 'trigonal' or crystal_system == 'hexagonal':\n        # equivalents by the three-fold axis along c (h k i l indices)\n"
+                 "        equivalents = [[h, k, l], [-(h+k), h, l], [k, -(h+k), l]]\n    elif crystal_system == 'cubic' or cell_choice == 'rhombohedral':\n"
+                 "        # equivalents by the three-fold axis along [111]\n        equivalents = [[h, k, l], [k, l, h], [l, h, k]]\n",
+              "    if crystal_system == 'cubic' or cell_choice == 'rhombohedral':\n        # equivalents by the three-fold axis along [111]\n"
+              "        equivalents = [[h, k, l], [k, l, h], [l, h, k]]\n    elif crystal_system == 'trigonal' or crystal_system == 'hexagonal':\n"
+              "        # equivalents by the three-fold axis along c (h k i l indices)\n        equivalents = [[h, k, l], [-(h+k), h, l], [k, -(h+k), l]]\n")],
+    "C06s": [(T, "        a = n.dot(Rots, refl[:3])", "        a = n.dot(refl[:3], Rots)"),
+             (L, "        a = np.dot(Rots, refl[:3])", "        a = np.dot(refl[:3], Rots)")],
+    "C07s": [(SG, "        trans[inexact] = n.round(3*trans[inexact])/3.", "        trans[inexact] = n.round(24*trans[inexact])/24.")],
+    "C08s": [(S, "                hrot = n.dot(mysg.rot[j], hkl)", "                hrot = n.dot(hkl, mysg.rot[j])")],
+    "C09s": [(L, "            omega.append(w_plus_alpha - alpha)\n            if omega[i] > np.pi:\n                omega[i] = omega[i] - 2*np.pi\n",
+              "            omega.append(w_plus_alpha - alpha)\n            if omega[i] > np.pi:\n                omega[i] = omega[i] - 2*np.pi\n"
+              "            elif omega[i] <= -np.pi:\n                omega[i] = omega[i] + 2*np.pi\n")],
+    "C10s": [(D, "    pos = n.array([tx, ty, tz])\n", "    pos = n.array([tx, ty, tz], dtype=float)\n")],
+    "C11s": [(D, "                                                   -det_size, 0))", "                                                   -n.dot(n.abs(omat), det_size), 0))"),
+             (D, "                                     -det_size, 0)", "                                     -n.dot(n.abs(omat), det_size), 0)")],
+    "C12s": [(Y, "        perm[1]  = [[-1, 0, 0], [ 0, -1, 0], [ 0, 0,  1]]\n        perm[2]  = [[-1, 0, 0], [ 0,  1, 0], [ 0, 0, -1]]\n        perm[3]  = [[ 1, 0, 0], [ 0, -1, 0], [ 0, 0, -1]]\n        perm = perm[",
+              "        perm[1]  = [[-1, 0, 0], [ 0,  1, 0], [ 0, 0, -1]]\n        perm[2]  = [[-1, 0, 0], [ 0, -1, 0], [ 0, 0,  1]]\n        perm[3]  = [[ 1, 0, 0], [ 0, -1, 0], [ 0, 0, -1]]\n        perm = perm[")],
+    "C13s": [(T, "    for i, j in zip(*n.triu_indices(3, 1)):", "    for i, j in ((0, 1), (1, 2), (0, 2)):")],
+    "C15u": [(S, "def multiplicity(position, sgname=None, sgno=None, cell_choice='standard'):", "def multiplicity(position, sgname=None, sgno=None, cell_choice=None):")],
+    "C13u": [(L, "    eps = _a_to_epsilon(np.dot(ubi, U), unit_cell)", "    eps = _a_to_epsilon(np.transpose(np.dot(ubi, U)), unit_cell)")],
+    "C14s": [(L, "                        if sysabs(HLAST, sysconditions, crystal_system) == 0:\n                            if  sintlH > sintlmin and sintlH <= sintlmax:\n                                H = np.concatenate((H, [HLAST]))\n                                stl = np.concatenate((stl, [sintlH]))\n",
+              "                        if sysabs(HLAST, sysconditions, crystal_system, cell_choice) == 0:\n                            if  sintlH > sintlmin and sintlH <= sintlmax:\n                                H = np.concatenate((H, [HLAST]))\n                                stl = np.concatenate((stl, [sintlH]))\n")],
+    "C15s": [(S, "        t = lp[i] - lpu\n", "        t = lp[i] - lpu[:multi]\n")],
+    "C16s": [(S, "    formfac = n.full_like(stl2, data[8])", "    formfac = n.full_like(stl2, data[8], dtype=float)")],
+    "C17s": [(S, "r'\\s*[-+]?\\d*\\.?\\d*'", "r'\\s*[-+]?\\d*\\.?\\d*(?:[eE][-+]?\\d+)?'")],
+    "C20s": [(Y, "        checks._check_rotation_matrix(relative_rotation)", "        checks._check_rotation_matrix(umat_1)\n        checks._check_rotation_matrix(umat_2)")],
 }
